@@ -1,6 +1,7 @@
 import TfPwaV.Model.LS
 import TfPwaV.Gen.KinF
 import TfPwaV.Gen.DalitzF
+import TfPwaV.Gen.SU2F
 import TfPwaV.Model.WignerF
 /-! Line-protocol driver: one op per input line, one answer line per op. -/
 open TfPwaV
@@ -10,6 +11,7 @@ def dispatch (ws : List String) : String :=
   | "C13" :: rest => (LS.handle rest).getD "bad-op"
   | "C12" :: rest => (WignerF.handle rest).getD "bad-op"
   | "C11" :: rest => (KinF.handle rest).getD "bad-op"
+  | "C12s" :: rest => (SU2F.handle rest).getD "bad-op"
   | "C11d" :: rest => (DalitzF.handle rest).getD "bad-op"
   | _ => "bad-op"
 
